@@ -99,7 +99,15 @@ class Rel16(Rel):
 
 
 OFF8 = lambda: Int(-128, 127, rej_from=256)
-BIT = lambda: Int(0, 7)
+class _ShiftedBit(Int):
+    """bit number written inside (bit<<16): a value of 2^47 and more leaves AS's 64 bit integers when shifted and wraps
+    to a valid bit number - excluded instead of expected to be rejected"""
+
+    def classify(self, v, pc=0, vals=None):
+        return "excl" if abs(v) >= 1 << 47 else Int.classify(self, v, pc, vals)
+
+
+BIT = lambda: _ShiftedBit(0, 7, far=False)
 A16H = lambda: Int(0x100, 65535, rej_lo=False)                                     # CMP label,A
 A16M = lambda: Int(0x100, 65535, rej_lo=False, holes=range(0x1000, 0x1100))         # MOV label,A / MOV A,label
 RADDR = lambda: Int(0, 255, rej_lo=False, rej_hi=False)     # register-file address inside a bit expression
